@@ -109,4 +109,90 @@ theorem atom_evalAt (f : Nat) (v : String) (ts ts1 ts2 : List Tok) (lo hi b : Ex
   rw [parseAtom]
   simp_all [keywords]
 
+/-! ### uminus / pow / times / plus -/
+
+theorem uminus_neg (f : Nat) (ts : List Tok) (a : Expr) (rest' : List Tok)
+    (h : parseUminus f ts = some (a, rest')) :
+    parseUminus (f + 1) (.sym "-" :: ts) = some (mkNeg a, rest') := by
+  rw [parseUminus, h]
+
+theorem uminus_atom (f : Nat) (ts : List Tok) (h : NotHd "-" ts) :
+    parseUminus (f + 1) ts = parseAtom f ts := by
+  unfold parseUminus
+  split
+  · exact absurd rfl (h _)
+  · rfl
+
+theorem powLoop_step (f : Nat) (acc : Expr) (ts : List Tok) (b : Expr) (rest' : List Tok)
+    (h : parseUminus f ts = some (b, rest')) :
+    parsePowLoop (f + 1) acc (.sym "^" :: ts) = parsePowLoop f (pow acc b) rest' := by
+  rw [parsePowLoop, h]
+
+theorem pow_mm (f : Nat) (ts : List Tok) (a : Expr) (rest : List Tok)
+    (h : parseUminus f (.sym "-" :: .sym "-" :: ts) = some (a, rest)) :
+    parsePow (f + 1) (.sym "-" :: .sym "-" :: ts) = parsePowLoop f a rest := by
+  rw [parsePow, h]
+
+theorem pow_m_atom (f : Nat) (ts : List Tok) (a : Expr) (rest' : List Tok) (hts : NotHd "-" ts)
+    (h : parseAtom f ts = some (a, rest')) (hr : NotHd "^" rest') :
+    parsePow (f + 1) (.sym "-" :: ts) = parsePowLoop f (mkNeg a) rest' := by
+  unfold parsePow
+  split
+  · rename_i heq
+    simp only [List.cons.injEq, true_and] at heq
+    exact absurd heq (hts _)
+  · rename_i heq
+    simp only [List.cons.injEq, true_and] at heq
+    subst heq
+    rw [h]
+    split
+    · rename_i heq2
+      simp only [Option.some.injEq, Prod.mk.injEq] at heq2
+      exact absurd heq2.2 (hr _)
+    · rename_i heq2
+      simp only [Option.some.injEq, Prod.mk.injEq] at heq2
+      rw [heq2.1, heq2.2]
+    · rename_i heq2; cases heq2
+  · rename_i h1 h2
+    exact absurd rfl (h2 _)
+
+theorem pow_u (f : Nat) (ts : List Tok) (a : Expr) (rest : List Tok) (hts : NotHd "-" ts)
+    (h : parseUminus f ts = some (a, rest)) :
+    parsePow (f + 1) ts = parsePowLoop f a rest := by
+  unfold parsePow
+  split
+  · exact absurd rfl (hts _)
+  · exact absurd rfl (hts _)
+  · rw [h]
+
+theorem timesLoop_mul (f : Nat) (acc : Expr) (ts : List Tok) (b : Expr) (rest' : List Tok)
+    (h : parsePow f ts = some (b, rest')) :
+    parseTimesLoop (f + 1) acc (.sym "*" :: ts) = parseTimesLoop f (mul acc b) rest' := by
+  rw [parseTimesLoop, h]
+
+theorem timesLoop_div (f : Nat) (acc : Expr) (ts : List Tok) (b e : Expr) (rest' : List Tok)
+    (h : parsePow f ts = some (b, rest')) (hd : mkDiv acc b = some e) :
+    parseTimesLoop (f + 1) acc (.sym "/" :: ts) = parseTimesLoop f e rest' := by
+  rw [parseTimesLoop, h]; simp only [hd]
+
+theorem times_step (f : Nat) (ts : List Tok) (a : Expr) (rest : List Tok)
+    (h : parsePow f ts = some (a, rest)) :
+    parseTimes (f + 1) ts = parseTimesLoop f a rest := by
+  rw [parseTimes, h]
+
+theorem plusLoop_add (f : Nat) (acc : Expr) (ts : List Tok) (b : Expr) (rest' : List Tok)
+    (h : parseTimes f ts = some (b, rest')) :
+    parsePlusLoop (f + 1) acc (.sym "+" :: ts) = parsePlusLoop f (add acc b) rest' := by
+  rw [parsePlusLoop, h]
+
+theorem plusLoop_sub (f : Nat) (acc : Expr) (ts : List Tok) (b : Expr) (rest' : List Tok)
+    (h : parseTimes f ts = some (b, rest')) :
+    parsePlusLoop (f + 1) acc (.sym "-" :: ts) = parsePlusLoop f (sub acc b) rest' := by
+  rw [parsePlusLoop, h]
+
+theorem plus_step (f : Nat) (ts : List Tok) (a : Expr) (rest : List Tok)
+    (h : parseTimes f ts = some (a, rest)) :
+    parsePlus (f + 1) ts = parsePlusLoop f a rest := by
+  rw [parsePlus, h]
+
 end Holpy.C19
